@@ -23,7 +23,7 @@ OPS = ([("listscripts",)] + [("getscript", n) for n in range(2)] + [("putscript"
        [("deletescript", n) for n in range(2)] + [("setactive", n) for n in range(3)] +
        [("renamescript", 0, 1), ("renamescript", 1, 0)] + [("havespace", 0, 5), ("havespace", 1, 5000)] + [("checkscript", 1)])
 NOPS = len(OPS)
-CUTS = ["none", "1", "mid", "last", "after-first-crlf"]
+CUTS = ["none", "between-cr-and-lf", "mid", "1", "last"]
 L = int(os.environ.get("C15_L", "2"))
 VERSION = os.environ.get("C15_VERSION", "1") == "1"
 NCUTS = int(os.environ.get("C15_NCUTS", "5"))
@@ -61,7 +61,10 @@ def cutter_for(kind):
         elif kind == "last":
             p = n - 1
         else:
-            p = reply.find(b"\r\n") + 1
+            # between the CR and the LF of the last line terminator that is not the very end (else the first)
+            p = reply.rfind(b"\r\n", 0, n - 2) + 1
+            if p <= 0 or p >= n:
+                p = reply.find(b"\r\n") + 1
             if p <= 0 or p >= n:
                 p = n // 2
         return [reply[:p], reply[p:]]
